@@ -257,6 +257,33 @@ pub fn run(args: &Args) -> i32 {
     }
     rec.sub("window_clauses", json!({"evaluations": wn}));
 
+    // every footer of the vendored IANA corpus denotes a rule that must be accepted (and does not flip by the model)
+    let mut footers = std::collections::BTreeSet::new();
+    for sub in ["fat", "slim"] {
+        for p in crate::corpus::files(sub) {
+            if let Ok(b) = std::fs::read(&p) {
+                if let Ok(d) = refmodel::tzif::decode(&b) {
+                    if let Some(f) = d.footer {
+                        footers.insert((f, d.version == b'3'));
+                    }
+                }
+            }
+        }
+    }
+    let mut nf = 0u64;
+    for (f, ext) in &footers {
+        if let refmodel::tzstr::Tz::Alt { std_utoff, dst_utoff, start, start_time, end, end_time, .. } = refmodel::tzstr::recognise(refmodel::tzstr::trim_ascii_ws(f), *ext).0 {
+            nf += 1;
+            let r = RuleSpec { std_off: std_utoff, dst_off: dst_utoff, start, start_time, end, end_time };
+            let got = AlternateTime::new(mk(std_utoff, false), mk(dst_utoff, true), rule_day(start), start_time as i32, rule_day(end), end_time as i32);
+            let model = Timeline::build(&cyc, &r, 2000, 402).no_flip();
+            if got.is_err() || !model {
+                rec.violation("iana_footers", json!({"kind":"cons","start":start.text(),"end":end.text(),"st":start_time,"et":end_time,"std":std_utoff,"dst":dst_utoff}), json!({"accept": true, "model_no_flip": model, "footer": String::from_utf8_lossy(f)}), json!(format!("{got:?}")));
+            }
+        }
+    }
+    rec.sub("iana_footers", json!({"distinct_footers": footers.len(), "dst_rules_checked": nf}));
+
     // count decisions at breakpoints (non-trivial): decisions whose d is a multiple of 86400 +-1 where the three
     // neighbouring d values do not all decide alike is measured as (accepted, refused both present per pair) - we report the
     // number of (pair, d) with refusal, and of pairs having both outcomes, conservatively the smaller of accepted/refused
